@@ -56,6 +56,16 @@ func SetTrace(on bool) {
 	restful.EnableTracing(on)
 }
 
+// SetTraceOff switches trace logging off in one of the two documented ways:
+// EnableTracing(false), or TraceLogger(nil).
+func SetTraceOff(viaNilLogger bool) {
+	if viaNilLogger {
+		restful.TraceLogger(nil)
+		return
+	}
+	SetTrace(false)
+}
+
 // ReqIDHeader carries the harness' request id so that concurrent requests keep separate logs.
 const ReqIDHeader = "X-Verif-Req"
 
